@@ -267,6 +267,10 @@ def run(ctx: Ctx):
     rc.r_column_order(ctx, rt, "C05")
     r_attr(ctx, rt)
     r_hash(ctx, rt)
+    ctx.rule("ID-label: the temperature-unit label a conversion stores is the canonical one for every accepted spelling of the target "
+             "(the label is hashed: 'C' / 'degC' / '°C' must not give three identifiers for one content) - convert_temperature interpreted (shared with C02)")
+    from .C02 import temperature_rules_for
+    temperature_rules_for(ctx, "C05", "ID-label")
     r_literal(ctx, rt)
     r_eq(ctx, rt)
 
